@@ -115,6 +115,17 @@ def gen_ops(res, rng, tier):
         ops.append(('iupac.add', mat, 'A', 'AA'))
         ops.append(('iupac.add', mat, 'AX', 'AA'))
     res.count('exhaustive_single_code_ops', len(ops))
+    # very long sequences (whole scaffolds; lengths around powers of two): the functions are position-wise at every length
+    for mat in ('DNA', 'RNA'):
+        cs = codes(mat)
+        for L in ((1000, 4095, 4096, 4097, 7249) if tier == 'quick' else (1000, 1023, 1024, 1025, 4095, 4096, 4097, 7249, 8193, 65536, 65537, 100003)):
+            s = ''.join(cs[(i * 7 + i // 15) % len(cs)] for i in range(L))
+            for fn in FN:
+                ops.append(('iupac.map', fn, mat, s))
+            ops.append(('iupac.add', mat, s, s[::-1]))
+            ops.append(('iupac.add', mat, s[:L // 2] + 'X' + s[L // 2 + 1:], s))
+            ops.append(('iupac.map', rng.choice(list(FN)), mat, s[:L - 3] + 'x' + s[L - 2:]))
+            res.count('very_long_sequences', 7)
     n = 2000 if tier == 'quick' else 50000
     for _ in range(n):
         mat = rng.choice(('DNA', 'RNA'))
